@@ -407,7 +407,7 @@ func ruleP6b(c *Ctx) *RuleResult {
 }
 
 func ruleV4j(c *Ctx) *RuleResult {
-	r := &RuleResult{Floor: 2, FloorWhat: "assertions of the open slot in request code"}
+	r := &RuleResult{Floor: 1, FloorWhat: "assertions of the open slot in request code"}
 	slotF := c.Field("", "muxerStream", "nextSegment")
 	if slotF == nil {
 		r.undecided("muxerStream.nextSegment not found")
